@@ -422,7 +422,7 @@ Section Footprints.
   Lemma replay_loop_pres rows : forall gfb gfe,
     ins_all f [FSt; FRole; FNout; FJsout; FJout] -> pres f (replay_loop c rows gfb gfe).
   Proof.
-    induction rows as [|r rows IH]; intros gfb gfe H; cbn [replay_loop]; [pres_tac|].
+    induction rows as [|r rows IH]; intros gfb gfe H; cbn [replay_loop]; cbv zeta; [pres_tac|].
     assert (Hm : forall m', pres f (send_msg c m')) by (intros; now apply send_msg_pres).
     pres_tac; auto.
   Qed.
@@ -659,7 +659,7 @@ Section Events.
     (forall t tags, is_noreply t = false -> P (Wire (mkMsg t tags))) ->
     allev P (replay_loop c rows gfb gfe).
   Proof.
-    induction rows as [|r rows IH]; intros gfb gfe H1 H2 H3; cbn [replay_loop]; [allev_tac|].
+    induction rows as [|r rows IH]; intros gfb gfe H1 H2 H3; cbn [replay_loop]; cbv zeta; [allev_tac|].
     assert (Hg : forall a b, allev P (send_msg c (gap_fill a b))) by (intros; apply send_msg_allev; auto).
     allev_step; [allev_tac|].
     apply allev_bind_lift. intros t Ht.
@@ -667,7 +667,7 @@ Section Events.
     { unfold get_tag in Ht. cbn in Ht. now inversion Ht. }
     destruct (is_noreply (mtype (snd r)) || negb (c_replay c (decode_row c r))) eqn:E; [apply IH; auto|].
     apply orb_false_iff in E. destruct E as [E _].
-    allev_step; [destruct (gfb <? gfe); [apply Hg|allev_tac]|].
+    cbv zeta. allev_step; [destruct (_ <? _); [apply Hg|allev_tac]|].
     apply allev_bind_lift. intros m1 Hm1.
     allev_step; [allev_tac|].
     apply allev_bind_lift. intros m2 Hm2.
